@@ -10,7 +10,7 @@ and the value.
 from hypothesis import strategies as st
 
 from traits.api import (HasTraits, HasStrictTraits, HasPrivateTraits, Int, Str, ReadOnly, Constant, Event, Disallow,
-                        Python, Any, TraitError)
+                        Python, Any, TraitError, List)
 from traits.trait_base import Undefined
 
 ID = "C13"
@@ -33,7 +33,8 @@ def mk(kind):
             "ReadOnly5": lambda: ReadOnly(5)}[kind]()
 
 
-PREFIXES = ["", "a", "ab", "abc", "_", "x", "xy"]
+# ("__" and "__a__" give names such as __b, ___z, __a__b, __a___z: two leading underscores but NOT of the __dunder__ form)
+PREFIXES = ["", "a", "ab", "abc", "_", "x", "xy", "__", "__a__"]
 SUFFIXES = ["", "1", "b", "bc", "q", "_z"]
 NAMES = sorted({p + s for p in PREFIXES for s in SUFFIXES if (p + s) and not (p + s).endswith("_") and (p + s).isidentifier()})
 BASES = {"H": HasTraits, "S": HasStrictTraits, "P": HasPrivateTraits}
@@ -46,6 +47,12 @@ OP = st.one_of(
     st.tuples(st.just("del"), st.sampled_from(NAMES)),
     st.tuples(st.just("add"), st.sampled_from(NAMES), st.sampled_from(KINDS)),
     st.tuples(st.just("rem"), st.sampled_from(NAMES)),
+    # a container trait added to the instance brings a companion `<name>_items` event trait, which remove_trait takes away
+    # again; `*_items` ops address the companion name of the most recently touched name
+    st.tuples(st.just("addlist"), st.sampled_from(NAMES)), st.tuples(st.just("addlist"), st.sampled_from(NAMES)),
+    st.tuples(st.just("get_items@"), st.integers(0, 3)), st.tuples(st.just("seti_items@"), st.integers(0, 3)),
+    st.tuples(st.just("del_items@"), st.integers(0, 3)), st.tuples(st.just("get_items@"), st.integers(0, 3)),
+    st.tuples(st.just("seti_items@"), st.integers(0, 3)),
     # ops addressed to the i-th name that currently has (or most recently had) an instance trait (construction)
     st.tuples(st.just("rem@"), st.integers(0, 3)), st.tuples(st.just("rem@"), st.integers(0, 3)),
     st.tuples(st.just("get@"), st.integers(0, 3)), st.tuples(st.just("get@"), st.integers(0, 3)),
@@ -126,10 +133,11 @@ class Model:
         self.store = {}
 
     def default(self, kind):
-        return {"Int": 0, "Str": "", "Any": None, "AnyPriv": None, "Constant": 5, "ReadOnly": Undefined, "ReadOnly5": 5}.get(kind)
+        return {"Int": 0, "Str": "", "Any": None, "AnyPriv": None, "Constant": 5, "ReadOnly": Undefined, "ReadOnly5": 5,
+                "ListInt": []}.get(kind)
 
     def get(self, kind, name):
-        if kind in ("Event", "Disallow"):
+        if kind in ("Event", "Disallow", "ItemsEvent"):
             return ("AttributeError",)
         if kind == "Constant":
             return ("ok", 5)
@@ -147,8 +155,12 @@ class Model:
             return ("TraitError",)        # a ReadOnly that has a default value is already defined: no write is accepted
         if kind == "Event":
             return ("ok", None)
+        if kind == "ItemsEvent":
+            return ("TraitError",)        # a typed event: only a TraitListEvent may be fired
         if kind == "Int" and not isinstance(v, int):
             return ("TraitError",)
+        if kind == "ListInt":
+            return ("TraitError",)        # neither 3 nor "s" is a list
         if kind == "Str" and not isinstance(v, str):
             return ("TraitError",)
         if kind == "ReadOnly":
@@ -160,7 +172,7 @@ class Model:
     def delete(self, kind, name):
         if kind in ("Disallow", "Constant", "ReadOnly", "ReadOnly5"):
             return ("TraitError",)
-        if kind == "Event":
+        if kind in ("Event", "ItemsEvent"):
             return ("ok", None)
         if kind == "Python":
             if name in self.store:
@@ -228,6 +240,20 @@ def run(case, ctx):
             if not touched:
                 continue
             k, name = k[:-1], touched[-1 - (op[1] % len(touched))]
+            if k.endswith("_items"):
+                k, name = k[:-6], name + "_items"
+                ctx.label("companion-name-used")
+        if k == "addlist":
+            if name in m.store or name in inst or (name + "_items") in m.store or (name + "_items") in inst:
+                continue          # (an event trait over a name that already holds a value: see ASSUMPTIONS)
+            if name not in touched:
+                touched.append(name)
+            o.add_trait(name, List(Int))
+            inst[name] = "ListInt"
+            inst[name + "_items"] = "ItemsEvent"
+            interesting = True
+            ctx.label("container-instance-trait-added")
+            continue
         if k == "add":
             if name not in touched:
                 touched.append(name)
@@ -242,6 +268,8 @@ def run(case, ctx):
             if name not in inst:
                 continue         # removing a trait that was never added is outside the statement
             o.remove_trait(name)
+            if inst[name] == "ListInt":
+                inst.pop(name + "_items", None)          # the companion goes with it
             del inst[name]
             m.store.pop(name, None)
             ctx.label("instance-trait-removed")
